@@ -282,7 +282,16 @@ STEREO_TEMPLATES = [
     '[C@H]({a})({b}){c}', '[C@@H]({a})({b}){c}', '{a}[C@H]({b}){c}', '{a}[C@@H]({b}){c}', '{a}[C@]({b})({c}){d}',
     '{a}[C@@]({b})({c}){d}', '{c}.[C@H]({a})({b}){d}', '{a}[C@H]1CC[C@@H]({b})CC1', '{a}[C@H]1CC[C@H]({b})CC1',
     'C1C[C@H]({a})[C@@H]({b})C1', '{a}[C@@H]1CCCC[C@H]1{b}', '[C@H]1({a})CCCC[C@@H]1{b}', '{a}/C=C1/CCCC({b})C1',
-    '{a}/C=C/1CCCC({b})C1', 'C1=C/CCCCCC/1', '{a}/C=C/[C@H]({b}){c}', '{a}[C@H]({b})/C=C\\{c}', '{a}/N=C/{b}',
+    '{a}/C=C/1CCCC({b})C1', 'C1=C/CCCCCC/1',
+    # labels that are stereogenic only because of other labels (centre<-bond, centre<-centre, bond<-centre, chains of them)
+    '{a}/C=C/[C@H]({b})/C=C\\{a}', '{a}/C=C/[C@@H]({b})/C=C\\{a}', '{a}/C=C\\[C@]({b})({c})/C=C/{a}',
+    '{a}/C=C/[C@@]({b})({c})/C=C\\{a}', 'C(/{a})=C/[C@H]({b})\\C=C/{a}', '{a}[C@H]({b})[C@H]({c})[C@@H]({b}){a}',
+    '{a}[C@H]({b})[C@@H]({c})[C@@H]({b}){a}', '{a}[C@@H]({b})[C@]({c})({d})[C@H]({b}){a}', '{a}[C@H]({b})/C=C/[C@@H]({b}){a}',
+    '{a}[C@H]({b})/C=C\\[C@H]({b}){a}', '{a}[C@H]({b})C(=C/{c})[C@@H]({b}){a}', '{a}[C@H]({b})/C({c})=C/[C@@H]({b}){a}',
+    '{a}/C=C/[C@H]({b})[C@H]({c})[C@@H]({b})/C=C\\{a}', '{a}[C@H]({b})[C@H]({c})/C=C/[C@@H]({c})[C@@H]({b}){a}',
+    '{a}/C=C/C(/C=C\\{a})=C/{b}', '{a}/C=C/C(/C=C/{a})=C/{b}', '{a}[C@H]1C[C@@H]({a})C[C@H]({b})C1', 'C1[C@H]({a})C[C@@H]({a})C[C@@H]1{b}',
+    '{a}/C=C/[C@H]1C[C@@H](/C=C\\{a})C1', '{a}[C@H]({b})C=[C@]=C[C@@H]({b}){a}', '{a}/C=C/C=[C@@]=C/C=C\\{a}',
+    '{a}/C=C/[C@H]({b}){c}', '{a}[C@H]({b})/C=C\\{c}', '{a}/N=C/{b}',
     '{a}/C=N/O', '{a}C(=C/{b})/{c}', '{a}[C@H]({b})[C@@H]({c})[C@H]({d})O', 'O[C@H]1[C@H]({a})O[C@H]({b})[C@@H]1O',
     '{a}C=[C@]=C{b}', '{a}C=[C@@]=C{b}', '{a}/C=C=C=C/{b}', '{a}/C=C=C=C\\{b}', '{a}[C@H]({b})C%12CC%12',
     '{a}/C=C/%11.C%11{b}', '{a}/C=C(/{b})1CC1', '[C@H]({a})1({b})CC1{c}', '{a}[C@]12CC1C2{b}', 'N[C@@H]({a})C(=O)O',
@@ -425,6 +434,25 @@ def streams(ctx):
                             groups.append([rng.randint(0, n) for _ in range(k)])
                     cx = ' |f:' + ','.join('.'.join(map(str, g)) for g in groups) + '|'
                     yield 'contraction-grid', smi + cx
+    # atom maps in reactions: every placement of classes / unmapped atoms over the three roles, one- and two-atom molecules,
+    # repeated and unique classes, classes above and below the number of atoms
+    cl = [0, 1, 2, 3, 7, 12]
+
+    def mm(sym, c):
+        return f'[{sym}:{c}]' if c else (sym if sym in ('C', 'N', 'O') else f'[{sym}]')
+    for cr in cl:
+        for cg in cl:
+            for cp in cl:
+                yield 'reaction-map-grid', f'{mm("C", cr)}O>{mm("Na", cg)}>{mm("C", cp)}=O'
+                yield 'reaction-map-grid', f'C{mm("C", cr)}O>O{mm("Na", cg)}>C{mm("C", cp)}=O'
+                if rng.random() < (0.25 if quick else 1.0):
+                    yield 'reaction-map-grid', f'{mm("C", cr)}{mm("N", cg)}>{mm("O", cp)}.{mm("Na", cg)}>{mm("C", cr)}{mm("O", cp)}'
+                    yield 'reaction-map-grid', f'{mm("C", cr)}.{mm("C", cg)}>>{mm("C", cp)}{mm("C", cg)}{mm("C", cr)}'
+                    yield 'reaction-map-grid', f'>{mm("C", cr)}{mm("C", cg)}C>{mm("C", cp)}'
+    for cr in cl:
+        for cg in cl:
+            yield 'molecule-map-grid', f'{mm("C", cr)}C{mm("N", cg)}O{mm("C", cr)}'
+            yield 'molecule-map-grid', f'C{mm("C", cr)}.{mm("N", cg)}C'
     # exhaustive short strings
     n_full = 3 if quick else 4
     for s in all_strings(ALPHA_FULL, n_full):
@@ -791,12 +819,15 @@ def oracle(s, stereo=True):
         log = ' '.join(map(str, (obj.meta or {}).get('chython_parsing_log', [])))
         if 'ignored' in log and 'molecule' in log:
             if all(_tabulated(g) for g in gs if g):
-                return ('C03/accepts-outside-language/reaction-drops-invalid-molecule',
-                        f'smiles({s!r}) = {obj}: a molecule the builder rejected was silently dropped')
+                # every molecule of the text is a valid graph for the reference reader, yet one was dropped on the way
+                return ('C03/wrong-graph/reaction-molecule-dropped',
+                        f'smiles({s!r}) = {obj}: a molecule of the text is missing (parsing log: {log[:200]})')
             return None
         roles = [(obj.reactants, gs[0]), (obj.reagents, gs[1]), (obj.products, gs[2])]
+        allcls = [a.cls for g in gs if g for a in g.atoms if a.cls]
     else:
         roles = [([obj], gs)]
+        allcls = [a.cls for a in gs.atoms if a.cls]
     for mols, g in roles:
         atoms, bonds, nums = real_view(mols)
         ra, rb = R.view(g) if g else ([], {})
@@ -809,11 +840,12 @@ def oracle(s, stereo=True):
         if rb != bonds:
             diff = sorted(set(rb.items()) ^ set(bonds.items()))[:6]
             return 'C03/wrong-graph/bonds', f'smiles({s!r}): bonds differ from the reference reading: {diff}'
-        if not is_rxn:
-            classes = [a[3] for a in ra]
-            for k, c in enumerate(classes):
-                if c and classes.index(c) == k and nums[k] != c:
-                    return 'C03/wrong-graph/atom-number', f'smiles({s!r}): atom {k} has class {c} but number {nums[k]}'
+        # atom maps: an atom written [X:n] is atom number n (molecule: first use of n; reaction: n used once in the text,
+        # repeated classes are renumbered by documented rules that are not judged here)
+        classes = [a[3] for a in ra]
+        for k, c in enumerate(classes):
+            if c and ((not is_rxn and classes.index(c) == k) or (is_rxn and allcls.count(c) == 1)) and nums[k] != c:
+                return 'C03/wrong-graph/atom-number', f'smiles({s!r}): atom {k} of {"a role" if is_rxn else "the molecule"} has class {c} but number {nums[k]}'
     # RDKit as a second, fully independent reader (molecules without CXSMILES only)
     if not is_rxn and len(words) == 1 and '~' not in s:
         rv = rdkit_view(s)
